@@ -63,8 +63,9 @@ def run_demo(wt, d, needs_cfg):
 
 def main():
     pid, var = sys.argv[1], sys.argv[2]
-    wt = f"/tmp/wt-{pid}"
-    d = f"/tmp/seed-out/{pid}/{var}"
+    wave = sys.argv[3] if len(sys.argv) > 3 else ""   # "" = first wave (/tmp/wt-ID, /tmp/seed-out), "2" = second wave
+    wt = f"/tmp/wt{wave}-{pid}"
+    d = f"/tmp/seed-out{wave}/{pid}/{var}"
     res = {"id": f"{pid}-{var}", "property": pid}
     if not os.path.exists(os.path.join(d, "patch.diff")):
         print(json.dumps({**res, "ok": False, "why": "no patch.diff"}))
